@@ -74,6 +74,8 @@ impl RecordWriter {
     }
 
     fn finish(&self, w: &mut impl Write) -> std::io::Result<()> {
+        #[cfg(feature = "verif")]
+        crate::verif::db_write_hook(false, &self.0, w)?;
         w.write_all(&self.0)
     }
 }
@@ -97,6 +99,12 @@ impl Writer {
     }
 
     fn write_signature(&mut self) -> std::io::Result<()> {
+        #[cfg(feature = "verif")]
+        {
+            let mut sig = "n2db".as_bytes().to_vec();
+            sig.extend_from_slice(&u32::to_le_bytes(VERSION));
+            crate::verif::db_write_hook(true, &sig, &mut self.w)?;
+        }
         self.w.write_all("n2db".as_bytes())?;
         self.w.write_all(&u32::to_le_bytes(VERSION))
     }
